@@ -49,6 +49,9 @@ def total(xs):
 chain = [step(1, 0)]
 for k in range(2, %(n)d + 1):
     chain.append(step(k, chain[-1]))
+    if k == 2 and os.path.exists(os.path.join(HERE, 'with-barrier')):
+        from jug import barrier
+        barrier()           # the rest of the file is only seen by a later pass of `jug execute`
 side = [step(100 + k, k) for k in range(3)]
 result = total(chain + side)
 '''
@@ -93,7 +96,7 @@ def lock_files(d):
     return sorted(os.listdir(p)) if os.path.exists(p) else []
 
 
-def signal_case(n, victim_k, sig, extra_args=(), env_extra=None, jugdir_prefix='', repeat=False):
+def signal_case(n, victim_k, sig, extra_args=(), env_extra=None, jugdir_prefix='', repeat=False, barrier=False):
     """run `jug execute`, deliver `sig` while the worker is inside step(victim_k); then inspect, then let a second worker finish.
     returns a dict of observations"""
     d = core.scratch_dir('jugproc-')
@@ -101,6 +104,8 @@ def signal_case(n, victim_k, sig, extra_args=(), env_extra=None, jugdir_prefix='
         with open(os.path.join(d, 'jugfile.py'), 'w') as f:
             f.write(JUGFILE.replace('%(n)d', str(n)))
         open(os.path.join(d, 'block-%d' % victim_k), 'w').close()
+        if barrier:
+            open(os.path.join(d, 'with-barrier'), 'w').close()
         common = ['--will-cite', '--nr-wait-cycles', '2', '--wait-cycle-time', '0'] + list(extra_args)
         p = jug_popen(['execute', 'jugfile.py'] + common, d, env_extra)
         t0 = time.time()
@@ -193,8 +198,11 @@ def stop_family(run, rng, n=4):
         args = [['--no-check-environment'], ['--keep-going'], [], ['--keep-failed', '--keep-going'], ['--aggressive-unload'], ['--keep-failed']][i % 6]
         k = rng.choice([1, 2, 3, 101])
         repeat = (i % 4 == 0)       # a repeated SIGTERM while the task function is still unwinding
-        params = {'sig': int(sig), 'k': k, 'args': args, 'n': 4, 'repeat': repeat}
-        obs = signal_case(4, k, sig, args, repeat=repeat)
+        barrier = (i % 4 == 2)      # the signal arrives in a later pass over a jugfile with a barrier
+        if barrier:
+            k = rng.choice([3, 4])
+        params = {'sig': int(sig), 'k': k, 'args': args, 'n': 4, 'repeat': repeat, 'barrier': barrier}
+        obs = signal_case(4, k, sig, args, repeat=repeat, barrier=barrier)
         judge_stop(run, obs, params)
         run.case(('proc-stop', i, run.seed), nontrivial='error' not in obs)
         run.count('process_mode_stop_cases')
